@@ -160,18 +160,20 @@ pub fn run(seed: u64, count: usize, shards: usize, outdir: &str) {
             }
             sizes.push(size_a);
             sizes.push(att_b);
-            if r.chance(1, 2) {
-                let att_c = r.range(1, rr);
+            // four or five filler courses that fit the room R as they are: with them the window of the k-selections (MIN_K = 5 courses up to
+            // the conflicting one) does not reach down to A, which is then touched by the constraints that always apply only
+            let nfill = r.range(4, 5);
+            rooms = vec![rr];
+            for k in 0..nfill {
+                let att_c = r.range((size_a + 1).min(rr), rr);
                 courses.push(ICourse { min: 0, max: att_c + 3, instr: vec![], fixed: false, fbits: 1.0f32.to_bits(), obits: 0.0f32.to_bits() });
                 for _ in 0..att_c {
-                    a.push(Some(2));
+                    a.push(Some(2 + k));
                 }
                 sizes.push(att_c);
+                rooms.push(rr);
             }
-            rooms = vec![rr, rr.max(size_a) + r.range(0, 3)];
-            if courses.len() == 3 {
-                rooms.push(sizes[2] + r.range(0, 2));
-            }
+            rooms.push(rr.min(size_a + r.range(0, 2)));
             r.shuffle(&mut rooms);
             if !fixed_a {
                 protect_enforced = Some(0);
